@@ -152,3 +152,6 @@ func (c *Conn) BrokerClosed() bool {
 
 // ID is the connection's number within its broker (the value recorded in Event.Conn).
 func (c *Conn) ID() int { return c.id }
+
+// OutLen is the number of bytes the broker has written on this connection so far.
+func (c *Conn) OutLen() int { return c.outLen() }
